@@ -84,6 +84,9 @@ type node interface {
 	// delete removes all information from the node.
 	delete()
 
+	// ownedBy returns true if the user u is the owner of the node.
+	ownedBy(u avfs.UserReader) bool
+
 	// fillStatFrom returns a *MemInfo (implementation of fs.FileInfo) from a node named name.
 	fillStatFrom(name string) *MemInfo
 
